@@ -49,11 +49,16 @@ Proof. exact v_auto_refines. Qed.
 Print Assumptions C02_auto_refines.
 
 (* grow-only index, started from IndexGO(labels) or from an auto-integer IndexGO: after ANY history of
-   append / extend / reader calls (no guard since fix feb832d) the state is a bijection (go_wf: labels
-   distinct, count = length, map = positions or labels = 0..n-1) and holds exactly the labels of the
-   specification list, every single outcome (accepted / rejected) agreeing *)
+   append / extend (all-or-nothing since fix c675c22) / reader calls the state is a bijection (go_wf:
+   labels distinct, count = length, map = positions or labels = 0..n-1) and holds exactly the labels of
+   the specification list, every single outcome (accepted / rejected) agreeing.  The guard go_dom only
+   restricts the VALUES OF AN EXTEND on a still map-less index: none of them may be a non-integer-typed
+   key equal to a held position (1.0 on [0,1]) -- such a key is not "contained" (finding
+   C02-auto-float-key, Refuted/C02_float_key.v) and slips through the validation of extend.  Appends
+   are unguarded (fix feb832d). *)
 Theorem C02_go_history : forall (g : go val) (ops : list (op val)),
   (exists l, M_go_init val_eqb l = Ok g) \/ (exists n, g = M_go_auto VInt n) ->
+  go_dom val_eqb vto_Z g ops = true ->
   vgo_wf (fst (M_go_run val_eqb vto_Z g ops)) /\
   (g_mut (fst (M_go_run val_eqb vto_Z g ops)), map is_ok (snd (M_go_run val_eqb vto_Z g ops)))
     = S_go_run val_eqb (g_mut g) ops.
